@@ -255,6 +255,19 @@ CHECKS["C16"] = (
     "be include_str! of exactly the given path and otherwise canonically equal.",
     "a run is inconclusive if one of the required character classes was never generated.",
     "DESIGN.md §8 C16")
+CHECKS["C01"] = (
+    "exploration",
+    "runtime monitoring of the output as a program: rustc verdicts (JSON diagnostics attributed "
+    "through macro expansion chains, fix-point loop) on every distinct returned text against "
+    "the real wgpu 24.0.5 / bytemuck / encase / serde / glam, with a classifier that admits only "
+    "the tool's own layout assertions and bytemuck's padding check",
+    "All texts of the four workload families (all their option sets incl. the full 16x3 derive "
+    "matrix and formatter/validation variants), the repository's shaders under 5 option sets "
+    "and ~40 hostile-identifier shaders are type-checked against the real crates; every module "
+    "gets a definite accepted/rejected verdict; any diagnostic other than the two permitted "
+    "kinds is a violation keyed by the responsible construct.",
+    "real nalgebra is absent offline (stand-in crate); rustc 1.95, default lint levels.",
+    "DESIGN.md §8 C01")
 
 NOT_YET = {
 }
